@@ -6,6 +6,7 @@ import MosnVerif.Model.H2Frame
 import MosnVerif.Model.HpackTable
 import MosnVerif.Model.H2Seq
 import MosnVerif.Model.HpackEmit
+import MosnVerif.Drive.C18Limits
 /-! `mosnmodel` side of C18 (core Lean only): evaluates the models on each case line and the executable property
 predicates on the implementation's output. -/
 namespace MosnVerif.Drive.C18
@@ -665,6 +666,7 @@ def run (caseToks impl : List String) : String :=
   | ["hdr", _, items] => hdrCase items impl
   | ["hdrcut", items] => hdrCutCase items impl
   | ["frames", dir, mal, _, specs] => framesCase dir mal specs impl
+  | "lim" :: rest => MosnVerif.Drive.C18Limits.run rest impl
   | _ => "E E unknown-kind"
 
 end MosnVerif.Drive.C18
